@@ -190,6 +190,7 @@ type syncRig struct {
 	heights []int
 	nodes   map[int]*node
 	nonce   uint64
+	events  *chainh.EventCounter
 }
 
 func newSyncRig(dbPath string, scn *syScn) (*syncRig, error) {
@@ -235,6 +236,9 @@ func newSyncRig(dbPath string, scn *syScn) (*syncRig, error) {
 		return nil, err
 	}
 	sr.rig = r
+	// the whole system: what the sync engine stores goes out as notifications (C11 through the P2P path)
+	sr.events = &chainh.EventCounter{}
+	r.stack.Svc.Notifier.AddChannel(sr.events)
 	if err := r.srv.Start(); err != nil {
 		return nil, err
 	}
@@ -821,6 +825,38 @@ func opSync() error {
 				}
 			}
 		}
+		// C11 at system level: exactly one ADD event per header the engine stored, none for anything else
+		if sr.events != nil && b.Scn.Name != "" && !scriptHasRestart(b.Hist) {
+			deadline := time.Now().Add(10 * time.Second)
+			stored := sr.storedHeights()
+			for {
+				seen := sr.events.Snapshot()
+				bad := ""
+				for id := range stored {
+					if id == 0 {
+						continue
+					}
+					if n := seen[sr.hashes[id].String()]; n != 1 {
+						bad = fmt.Sprintf("block %d stored, %d ADD events", id, n)
+					}
+				}
+				for h, n := range seen {
+					id, known := sr.byHash[mustHash(h)]
+					if _, has := stored[id]; !known || !has {
+						bad = fmt.Sprintf("%d ADD events for %s, which is not stored", n, h)
+					}
+				}
+				if bad == "" {
+					res.Stats["notify-checked"]++
+					break
+				}
+				if time.Now().After(deadline) {
+					miss(len(b.Hist), "sync-notify", "exactly one ADD event per header the sync engine stored", bad)
+					break
+				}
+				time.Sleep(2 * time.Millisecond)
+			}
+		}
 		if drifted {
 			res.Stats["drifted-behaviours"]++
 		}
@@ -851,4 +887,21 @@ func (sr *syncRig) markClosed(p int) {
 		closedSeen[sr] = map[int]bool{}
 	}
 	closedSeen[sr][p] = true
+}
+
+func scriptHasRestart(h []syStep) bool {
+	for _, s := range h {
+		if s.Op == "restart" {
+			return true // the counter belongs to the first process
+		}
+	}
+	return false
+}
+
+func mustHash(s string) chainhash.Hash {
+	h, err := chainhash.NewHashFromStr(s)
+	if err != nil {
+		return chainhash.Hash{}
+	}
+	return *h
 }
